@@ -111,8 +111,28 @@ def check_content_leaves(ctx, rule, name, an, cfg, spec, panic_spec=None, hyps_f
             else:
                 ctx.violation(rule, key, fn.path, fn.site(), {'leaf_constraints': pc_text(o), 'got': seq.show_parts(a), 'expected': seq.show_parts(b)}, cfg)
         if not matched:
-            ctx.obligation(False)
-            ctx.violation(rule, '%s/%s/leaf-straddles-spec-regions' % (rule, name), fn.path, fn.site(), {'leaf_constraints': pc_text(o), 'returned': safe_show(ip, o)}, cfg)
+            # the leaf lies across several regions of the specification (a guard tested in another form, e.g. the
+            # boundary case of a `min` folded into one arm): compare it region by region, and require the regions to cover it
+            parts = []
+            covered = ip.entails(o.state, any_(*[region for role, region, expected in spec(o)]))
+            good = covered
+            for role, region, expected in spec(o):
+                st2 = o.state.clone()
+                if not st2.assume(region) or ip.unsat(tuple(st2.pc)):
+                    continue
+                val = o.value
+                if bool(o.state.frames) and val is o.state.frames[0].cells[0].v:
+                    val = st2.frames[0].cells[0].v
+                ok, (a, b) = seq.same_content(ip, st2, seq.content_of(ip, st2, val), expected)
+                parts.append((role, ok, seq.show_parts(a), seq.show_parts(b)))
+                good = good and ok
+            good = good and bool(parts)
+            ctx.obligation(good)
+            key = '%s/%s/leaf-straddles-spec-regions' % (rule, name)
+            if good:
+                ctx.ok(rule, '%s/%s/%s' % (rule, name, '+'.join(p_[0] for p_ in parts)), fn.path, fn.site(), None, cfg)
+            else:
+                ctx.violation(rule, key, fn.path, fn.site(), {'leaf_constraints': pc_text(o), 'returned': safe_show(ip, o), 'covered': covered, 'by_region': [list(map(str, p_)) for p_ in parts]}, cfg)
         for ev in o.state.events:
             if ev[0] in ('may-wrap', 'may-truncate'):
                 ctx.obligation(False)
